@@ -96,7 +96,7 @@ def h_from_ref(ctx):
 def h_to_ref(ctx):
     alg, kind = ctx.choose("alg/key", scen.JWS_KINDS)
     path = ctx.choose("path", c03.PATHS)
-    placement = ctx.choose("placement", ["protected"] if path in ("compact", "7797-compact") else ["protected", "unprotected-alg", "split"])
+    placement = ctx.choose("placement", ["protected"] if path in ("compact", "7797-compact") else ["protected", "unprotected-alg", "split", "empty-protected"])
     extras = ctx.choose("extras", [None, {"kid": "k/1", "cty": 'q"\\é\u0001'}])
     pls = A.payload_classes(full=config.thorough())
     if path == "7797-flattened":
